@@ -1100,6 +1100,19 @@ func (in *Interp) filter(name string, v Val, args []Val) (Val, error) {
 			return x[len(x)-1], nil
 		}
 		return nil, ErrUndefinedBehaviour
+	case "merge":
+		// lists: the elements of the argument follow those of the receiver, in a list of its own
+		x, ok1 := v.([]Val)
+		if len(args) != 1 || !ok1 {
+			return nil, ErrUndefinedBehaviour
+		}
+		y, ok2 := args[0].([]Val)
+		if !ok2 {
+			return nil, ErrUndefinedBehaviour
+		}
+		out := make([]Val, 0, len(x)+len(y))
+		out = append(append(out, x...), y...)
+		return out, nil
 	case "reverse":
 		switch x := v.(type) {
 		case []Val:
